@@ -439,6 +439,22 @@ def gen_C10(chk):
             # plain formula through the extended entry points with an empty context
             e0 = chk.add_eval(net, k, "es", [f], tag="emptyctx", netname=nm)
             chk.cases[e0]["pair"] = base
+            # surroundings with variable domains and wild-cards: the closed sub-formula below a
+            # restricted quantifier, replaced by its raw result
+            if closed and j % 2 == 0:
+                s0 = rng.choice(closed)
+                for q in gen.QUANTS:
+                    body = rng.choice([s0, ("B", "Or", s0, ("U", "AX", gen.T("V", "w"))),
+                                       ("B", "And", ("U", "EX", gen.T("V", "w")), s0),
+                                       ("H", "Jump", "w", None, s0)])
+                    g0 = ("H", q, "w", "d", body)
+                    g1 = replace_subtree(g0, s0, gen.T("W", "w0"))
+                    dspec = ctx_spec(rng)
+                    kk = max(gen.quant_depth(g0), 1)
+                    b0 = chk.add_eval(net, kk, "es", [g0], ctx=[("d", dspec)], tag="dom-base", netname=nm)
+                    c1 = chk.add_eval(net, kk, "es", [g1], ctx=[("d", dspec), ("w0", "f" + gen.hx(gen.render(s0)))],
+                                      tag="dom-subst", netname=nm)
+                    chk.cases[c1]["pair"] = b0
             if not closed:
                 continue
             rng.shuffle(closed)
@@ -673,3 +689,56 @@ def gen_C18(chk):
             a = chk.add_eval(net, k, "u", [f], tag="unsafe-nosteady", netname=nm)
             b = chk.add_eval(net, k, "", [f], tag="standard", netname=nm)
             chk.cases[a]["pair"] = b
+
+
+# ------------------------------------------------------------------ C11 on large networks
+def big_networks(rng, thorough_):
+    nets = []
+    for n in ([60, 80] if not thorough_ else [60, 80, 100]):
+        names = ["v%d" % i for i in range(n)]
+        # every update function constant false: the unique sink is the all-zero state
+        nets.append(("allfalse%d" % n, "".join("$%s: false\n" % v for v in names)))
+        # every variable keeps its value: every state is steady
+        if n == 60:
+            nets.append(("identity%d" % n, "".join("%s -> %s\n$%s: %s\n" % (v, v, v, v) for v in names)))
+    return nets
+
+
+def laws_for(S, T):
+    def U(o, a):
+        return ("U", o, a)
+
+    def B(o, a, b):
+        return ("B", o, a, b)
+    return [
+        (U("EF", S), B("Or", S, U("EX", U("EF", S)))),
+        (U("EG", S), B("And", S, U("EX", U("EG", S)))),
+        (U("AF", S), B("Or", S, U("AX", U("AF", S)))),
+        (U("AG", S), B("And", S, U("AX", U("AG", S)))),
+        (B("EU", S, T), B("Or", T, B("And", S, U("EX", B("EU", S, T))))),
+        (B("AU", S, T), B("Or", T, B("And", S, U("AX", B("AU", S, T))))),
+        (U("AF", S), B("AU", gen.T("1"), S)),
+        (U("EF", S), B("EU", gen.T("1"), S)),
+        (U("AF", S), U("Not", U("EG", U("Not", S)))),
+        (U("AG", S), U("Not", U("EF", U("Not", S)))),
+        (B("EW", S, T), B("Or", B("EU", S, T), U("EG", S))),
+        (B("AW", S, T), U("Not", B("EU", U("Not", T), B("And", U("Not", S), U("Not", T))))),
+    ]
+
+
+def gen_C11_big(chk):
+    from .shellprops import add_shell
+    rng = chk.rng
+    S, Tt = gen.T("W", "s"), gen.T("W", "t")
+    for nm, net in big_networks(rng, thorough(chk)):
+        n = net.count("$")
+        names = ["v%d" % i for i in range(n)]
+        zero = " & ".join("~" + v for v in names)
+        one_hot = " & ".join(("~" if i != 3 else "") + v for i, v in enumerate(names))
+        few = "%s & ~%s" % (names[0], names[1])
+        for sdef, tdef in [(zero, few), ("~(%s)" % zero, zero), (one_hot, zero), (few, "~(%s)" % zero)]:
+            fs = []
+            for a, b in laws_for(S, Tt):
+                fs += [gen.render(a), gen.render(b)]
+            add_shell(chk, "EQV", ["0", "A:" + gen.hx(net), "%s=f%s,%s=f%s" % (gen.hx("s"), gen.hx(sdef), gen.hx("t"), gen.hx(tdef)),
+                                   ",".join(gen.hx(f) for f in fs)], tag="big-laws", meta={"net": nm})
